@@ -2,6 +2,7 @@ package blsx
 
 import (
 	"bytes"
+	"encoding/json"
 	"fmt"
 	"math/big"
 
@@ -256,6 +257,65 @@ func VerifySweep(seed int64) (res Result) {
 	}
 	if ok, _ := w.SK(w.Scalar("x2")).PublicKey().Verify(valid, m.Data, h); ok {
 		add("accepted under another key")
+	}
+	return
+}
+
+func init() { Runners["verify-highx"] = runVerifyHighX }
+
+// runVerifyHighX: a VALID signature whose abscissa shares its 13 leading bits with the field prime (x in [0x1a01 << 368, p): one
+// G1 point in about 95 000).  Such strings sit next to the "x >= p" refusals of the decoder; found by walking k -> k.H with the
+// reference addition.  The signature must verify, be what Sign returns, survive aggregation unchanged, and its neighbours must not verify.
+func runVerifyHighX(raw json.RawMessage, seed int64) (res Result) {
+	res.Violations = []Violation{}
+	defer func() {
+		if r := recover(); r != nil {
+			res.Violations = append(res.Violations, Violation{"C09", "NoPanic", fmt.Sprintf("high-x signatures: panic: %v", r)})
+		}
+	}()
+	w := NewWorld(seed)
+	add := func(prop, pred, d string) {
+		res.Violations = append(res.Violations, Violation{prop, pred, fmt.Sprintf("%s [seed %d]", d, seed)})
+	}
+	H := w.HashPoint("kmac", "m1")
+	m := w.Msg("m1")
+	h := w.Hasher("kmac", "m1")
+	k := new(big.Int).Set(w.Scalar("x1"))
+	Q := H.Mul(k)
+	top := new(big.Int).Rsh(ref.P, 368)
+	found := false
+	for tries := 0; tries < 1500000; tries++ {
+		if !Q.Inf && new(big.Int).Rsh(Q.X, 368).Cmp(top) == 0 {
+			found = true
+			break
+		}
+		Q = Q.Add(H)
+		k.Add(k, big.NewInt(1))
+	}
+	k.Mod(k, ref.R)
+	if !found || k.Sign() == 0 {
+		return // (probability e^-15) nothing to judge
+	}
+	sig := Q.Compress()
+	sk := w.SK(k)
+	pk := sk.PublicKey()
+	res.Evals += 4
+	if got, err := sk.Sign(m.Data, h); err != nil || !bytes.Equal(got, sig) {
+		add("C01", "SignIsCanonical", fmt.Sprintf("Sign returned %x (err %v), sk*H(m) is %x (abscissa with the leading bits of p)", []byte(got), err, sig))
+	}
+	if ok, err := pk.Verify(sig, m.Data, w.Hasher("kmac", "m1")); !ok || err != nil {
+		add("C01", "AcceptanceSet", fmt.Sprintf("Verify of the valid signature %x (abscissa with the 13 leading bits of p) = (%v, %v)", sig, ok, err))
+	}
+	if out, err := crypto.AggregateBLSSignatures([]crypto.Signature{sig}); err != nil || !bytes.Equal(out, sig) {
+		add("C05", "ReencodeIsInput", fmt.Sprintf("AggregateBLSSignatures of the single canonical signature %x: %x, %v", sig, []byte(out), err))
+	}
+	for bit := 0; bit < 16; bit++ { // flips in the two leading bytes of x: another x, or x >= p
+		b := append([]byte(nil), sig...)
+		b[bit/8] ^= 0x80 >> uint(bit%8)
+		if ok, err := pk.Verify(b, m.Data, w.Hasher("kmac", "m1")); ok || err != nil {
+			add("C01", "AcceptanceSet", fmt.Sprintf("Verify of %x (bit %d of a valid signature flipped) = (%v, %v)", b, bit, ok, err))
+		}
+		res.Evals++
 	}
 	return
 }
